@@ -209,6 +209,22 @@ def main():
                 for f2 in (fcalls if tier == "thorough" else fcalls[fi : fi + 1]):
                     # several short-lived factories of the first kind (each one is freed before the next is made)
                     items.append(("factory-history", f"{k1} x4 then {k2}", [f1(k1)] * 4, f2(k2)))
+    # (2d) constant histories: compiled functions that hold a constant (an adapted user function); compile A, compile
+    # B with another constant, call A again (cache hit) - A's outcome must be its cold outcome
+    red = ["reduce:sum", "reduce:prod", "reduce:max", "reduce:min"]
+    elw = ["elementwise:add", "elementwise:multiply", "elementwise:maximum"]
+    mk_r = lambda a, desc="a [b]": {"op": "adapted", "adapter": a, "desc": desc, "shapes": [[2, 3]], "kwargs": {}}
+    mk_e = lambda a: {"op": "adapted", "adapter": a, "desc": "a b, b -> a b", "shapes": [[2, 3], [3]], "kwargs": {}}
+    for group, mk in ((red, mk_r), (elw, mk_e)):
+        for x in group:
+            for y in group:
+                if x != y:
+                    items.append(("constant-history", f"{x}, {y}, {x} again", [mk(x), mk(y)], mk(x)))
+                    if tier == "thorough":
+                        items.append(("constant-history", f"{x}, {y}, {x} again:graph", [mk(x), mk(y)], dict(mk(x), graph=True)))
+    for x in red:
+        for y in elw:
+            items.append(("constant-history", f"{x}, {y}, {x} again", [mk_r(x), mk_e(y)], mk_r(x)))
     # (3) failing call followed by a valid one, and a valid call repeated after the failing one of the same key family
     for fname, failing in FAILING:
         items.append(("failure-hygiene", fname, failing, GOOD))
